@@ -84,7 +84,7 @@ theorem bounded_dArr : Bounded dArr 3 := by
     rcases hn with rfl | rfl <;> simp at hc <;> subst hc <;> decide
 
 theorem fresh_hArr : Fresh hArr :=
-  ⟨⟨HArr, wf_dArr⟩, bounded_dArr, (fun _ ht => by cases ht), (by decide)⟩
+  ⟨⟨HArr, wf_dArr⟩, bounded_dArr, (by decide)⟩
 
 /-- the second element of the example array can be deleted and restored -/
 theorem arrDel_hArr : ArrDel hArr tA tY eArr eY [⟨tX, some tX⟩, ⟨tY, some tY⟩] (fun _ => none) := by
